@@ -41,6 +41,10 @@ enum Op {
     Names,
     HasImages,
     Image(u16),
+    /// the image filter as an argument of the query: set_embedded_image_filter(bits), then has_embedded_images()
+    HasImagesF(u8),
+    /// set_embedded_image_filter(bits), then lookup_glyph_image(g, 12, One)
+    ImageF(u8, u16),
     Tables,
 }
 
@@ -57,6 +61,7 @@ impl Op {
             Op::HAdvance(_) | Op::VAdvance(_) => "advance",
             Op::Names => "glyph_names",
             Op::HasImages | Op::Image(_) => "images",
+            Op::HasImagesF(_) | Op::ImageF(..) => "images-with-filter-argument",
             Op::Tables => "table-loaders",
         }
     }
@@ -81,6 +86,8 @@ impl Op {
             Op::Names => "glyph_names([0,1,2,3])".into(),
             Op::HasImages => "has_embedded_images()".into(),
             Op::Image(g) => format!("lookup_glyph_image({}, 16, ThirtyTwo)", g),
+            Op::HasImagesF(b) => format!("set_embedded_image_filter({:#04x}); has_embedded_images()", b),
+            Op::ImageF(b, g) => format!("set_embedded_image_filter({:#04x}); lookup_glyph_image({}, 12, One)", b, g),
             Op::Tables => "gdef_table/kern_table/vhea_table/morx_table/os2_table".into(),
         }
     }
@@ -123,6 +130,24 @@ fn apply(font: &mut F<'_>, op: &Op, fvar: Option<&FvarTable<'_>>) -> String {
         Op::VAdvance(g) => format!("{:?}", font.vertical_advance(*g)),
         Op::Names => format!("{:?}", font.glyph_names(&[0, 1, 2, 3])),
         Op::HasImages => format!("{:?}", font.has_embedded_images()),
+        Op::HasImagesF(b) => {
+            font.set_embedded_image_filter(GlyphTableFlags::from_bits_truncate(*b));
+            format!("{:?}", font.has_embedded_images())
+        }
+        Op::ImageF(b, g) => {
+            font.set_embedded_image_filter(GlyphTableFlags::from_bits_truncate(*b));
+            match font.lookup_glyph_image(*g, 12, BitDepth::One) {
+                Ok(Some(b)) => {
+                    let (kind, data): (&str, &[u8]) = match &b.bitmap {
+                        allsorts::bitmap::Bitmap::Embedded(e) => ("embedded", &e.data),
+                        allsorts::bitmap::Bitmap::Encapsulated(e) => ("encapsulated", &e.data),
+                    };
+                    format!("Ok(Some(ppem=({:?},{:?}) {} {} bytes {:016x}))", b.ppem_x, b.ppem_y, kind, data.len(), mcx::fnv64(data))
+                }
+                Ok(None) => "Ok(None)".into(),
+                Err(e) => format!("Err({:?})", e),
+            }
+        }
         Op::Image(g) => match font.lookup_glyph_image(*g, 16, BitDepth::ThirtyTwo) {
             Ok(Some(b)) => {
                 let (kind, w, h, data): (&str, u32, u32, &[u8]) = match &b.bitmap {
@@ -560,6 +585,25 @@ fn subjects(ctx: &Ctx) -> Vec<Subject> {
         ];
         v.push(Subject { name: nm.into(), data, filter, ops });
     }
+    // 4b. a font whose only image tables are EBLC/EBDT (synthetic, from otmodel::bitmapenc): with a fixed filter that opts
+    //     into EBDT, and with the filter as an argument of every image query (the images are loaded lazily, once)
+    if let Some((_, data)) = crate::synth::extra_seeds().into_iter().find(|(n, _)| n == "eblc-index2-image5+index3-image2-depth1") {
+        let all = GlyphTableFlags::all().bits();
+        let ops = vec![
+            Op::HasImages,
+            Op::Image(1),
+            Op::Image(4),
+            Op::Lookup { ch: 'A', required: true, vs: Some(16) },
+            Op::Lookup { ch: 'A', required: true, vs: Some(15) },
+            Op::MapGlyphs { text: "A\u{FE0F}B", script: tag::LATN, required: true },
+            Op::Names,
+        ];
+        v.push(Subject { name: "synthetic-eblc-only-filter-all".into(), data: data.clone(), filter: Some(all), ops });
+        let dflt_filter = (GlyphTableFlags::SVG | GlyphTableFlags::SBIX | GlyphTableFlags::CBDT).bits();
+        let ebdt = GlyphTableFlags::EBDT.bits();
+        let ops = vec![Op::HasImagesF(dflt_filter), Op::HasImagesF(ebdt), Op::ImageF(dflt_filter, 1), Op::ImageF(ebdt, 1), Op::ImageF(all, 4), Op::ImageF(GlyphTableFlags::GLYF.bits(), 1), Op::HAdvance(1)];
+        v.push(Subject { name: "synthetic-eblc-only-filter-as-argument".into(), data, filter: None, ops });
+    }
     // 5. symbol-encoded font (lazy OS/2 usFirstCharIndex slot)
     {
         let data = crate::util::fixture("fonts/opentype/SymbolTest-Regular.ttf");
@@ -868,7 +912,7 @@ pub fn run(ctx: &Ctx) {
          (subject, digest before, digest after)",
     );
     ctx.assume("hook H3 renders all mutable state of Font (LazyLoad slots, glyph cache, image filter, and for both layout caches: supported_features, lookups_index, cached_lookups, populated lookup_cache slots, coverage/classdef ReadCache keys); cross-validated by unmerged exploration of all histories to depth 3 (thorough 4)");
-    ctx.assume("set_embedded_image_filter is a configuration: each filter value is explored as its own subject and compared with a fresh font carrying the same filter");
+    ctx.assume("set_embedded_image_filter is a configuration: filter values are explored as subjects of their own (compared with a fresh font carrying the same filter) and, on the EBLC-only subject, as an argument of every image query (set filter, then query, compared with the same pair on a fresh font)");
     ctx.assume("observables are compared through Debug renderings of the returned values");
     let depth = if ctx.tier.thorough() { 4 } else { 3 };
     for s in subjects(ctx) {
